@@ -22,6 +22,39 @@ def mode_branches(fi, param='mode'):
     return out
 
 
+def pass_through_rule(chk, repo, rid, fi, br):
+    """must-pass-through: every return of the routine lies in one of the mode branches after its boundary call, or is the
+    documented empty-chain guard; nothing else at the top level writes the object"""
+    branch_stmts = {id(s) for stmts in br.values() for s in stmts}
+    branch_ifs = [s for s in fi.node.body if isinstance(s, ast.If) and any(id(x) in branch_stmts for x in s.body)]
+    n = 0
+    for s in fi.node.body:
+        if s in branch_ifs or isinstance(s, (ast.Assert, ast.Raise)) or \
+                (isinstance(s, ast.Expr) and isinstance(s.value, ast.Constant)):
+            continue
+        guard = isinstance(s, ast.If) and norm(s.test) in ('len(self.A) == 0', 'self.nsites == 0', 'not self.A') and \
+            len(s.body) == 1 and isinstance(s.body[0], ast.Return) and not s.orelse
+        if guard:
+            continue
+        rets = [r for r in ast.walk(s) if isinstance(r, ast.Return)]
+        writes = [t for a in ast.walk(s) if isinstance(a, (ast.Assign, ast.AugAssign))
+                  for t in (a.targets if isinstance(a, ast.Assign) else [a.target])
+                  if any(isinstance(x, ast.Name) and x.id == 'self' for x in ast.walk(t))]
+        if rets or writes:
+            chk.ob(rid, where(repo, fi, s), f'{fi.name}: every returning path runs through the sweep and its boundary factorisation '
+                   f'(apart from the empty-chain guard)', False, f'`{norm(s)[:80]}` returns or writes the object outside the mode '
+                   f'branches: the isometry / factor argument of the sweep does not cover this path',
+                   key=f'{rid}|{fi.qual}|bypass|{norm(s)[:60]}')
+            n += 1
+    for mode, stmts in br.items():
+        k, b = boundary_stmt(stmts)
+        early = [r for s in stmts[:k if k is not None else 0] for r in ast.walk(s) if isinstance(r, ast.Return)]
+        chk.ob(rid, where(repo, fi, stmts[0]), f'{fi.name}(mode={mode!r}): no return before the boundary factorisation', not early,
+               f'return at line {early[0].lineno}' if early else '', key=f'{rid}|{fi.qual}|{mode}|no-early-return')
+        n += 1
+    return n
+
+
 def boundary_stmt(stmts):
     for k, s in enumerate(stmts):
         if isinstance(s, ast.Assign) and isinstance(s.value, ast.Call) and \
@@ -98,6 +131,7 @@ def run(chk, repo, tier):
         br = mode_branches(fi)
         if set(br) != {'left', 'right'}:
             raise AnalysisError(f'{q}: branches for mode "left" and "right" not found')
+        n2 += pass_through_rule(chk, repo, 'C01.R2', fi, br)
         for mode, stmts in br.items():
             cases = sr.bond_coverage(chk, repo, 'C01.R2', fi, stmts, mode)
             for label, m, rep, pre in cases:
